@@ -4,7 +4,10 @@
 // remembered before the first Commit) with right and wrong digests in either order.
 package main
 
-import "math/rand"
+import (
+	"math/rand"
+	"strings"
+)
 
 var faultStatuses = []int{502, 503, 429, 500}
 
@@ -58,7 +61,7 @@ func withFault(r *rand.Rand, stack string) script {
 			default:
 				n = sizeNear(r, c)
 			}
-			if stack == "hop2" && n > c+1 {
+			if strings.HasPrefix(stack, "hop2") && n > c+1 {
 				n = c + 1
 			}
 			p := piece(k, n)
@@ -191,6 +194,96 @@ func recommit(r *rand.Rand, stack string) script {
 			sc.Table = append(sc.Table, rle(content))
 		}
 		commit()
+	}
+	return sc
+}
+
+// unseen: an upload id that is well formed on the stack in use but names an upload the
+// registry has never seen.  The script starts an upload, closes it, remembers its id, the
+// registries lose everything (forget), and the id is resumed - by asking the registry, at
+// offset 0, or at an explicit offset > 0.  The registry holds zero bytes of that upload: in
+// the last case the data must be refused as range invalid (by Close / Commit at the
+// latest), after which the upload is resumed at 0 and completed.
+func unseen(r *rand.Rand, stack string) script {
+	sc := script{Stack: stack, Repo: "foo/bar", Shape: "unseen-id", Kind: "x"}
+	hint := hintPool[r.Intn(len(hintPool))]
+	sc.Ops = append(sc.Ops, opDesc{Op: "start", Hint: hint})
+	before := 0
+	for i, nw := 0, r.Intn(3); i < nw; i++ {
+		n := 1 + r.Intn(6)
+		sc.Ops = append(sc.Ops, opDesc{Op: "write", Data: []run{{n, 48 + i}}})
+		before += n
+	}
+	sc.Ops = append(sc.Ops, opDesc{Op: "close"}, opDesc{Op: "mark"}, opDesc{Op: "forget"})
+	hint = hintPool[r.Intn(len(hintPool))]
+	c := chunkFor(stack, hint)
+	size := func() int {
+		n := 1 + r.Intn(6)
+		if r.Intn(4) == 0 {
+			n = sizeNear(r, c)
+			if n > c+1 {
+				n = c + 1
+			}
+		}
+		return n
+	}
+	var off int64
+	mode := "at"
+	switch r.Intn(9) {
+	case 0:
+		mode = "info"
+	case 1:
+		off = 0
+	case 2:
+		off = 1
+	case 3, 4:
+		off = int64(before)
+	case 5:
+		off = int64(before) + 1
+	case 6:
+		off = int64(c)
+	case 7:
+		off = 5
+	default:
+		off = int64(1 + r.Intn(20))
+	}
+	sc.Ops = append(sc.Ops, opDesc{Op: "resume-mark", Mode: mode, Off: off, Hint: hint})
+	if mode == "at" && off != 0 {
+		// the episode: data at an offset the registry is not at
+		var sent []byte
+		for j, nw := 0, 1+r.Intn(3); j < nw; j++ {
+			p := []run{{size(), 97 + j}}
+			sc.Ops = append(sc.Ops, opDesc{Op: "write", Data: p})
+			sent = append(sent, expand(p)...)
+		}
+		sc.Table = append(sc.Table, rle(sent))
+		if r.Intn(3) == 0 {
+			sc.Ops = append(sc.Ops, opDesc{Op: "commit", Digest: sha(sent)})
+		} else {
+			sc.Ops = append(sc.Ops, opDesc{Op: "close"})
+		}
+		if r.Intn(5) == 0 {
+			return sc
+		}
+		back := opDesc{Op: "resume", Mode: "at", Off: 0, Hint: hintPool[r.Intn(len(hintPool))]}
+		if r.Intn(3) == 0 {
+			back.Mode = "info"
+		}
+		sc.Ops = append(sc.Ops, back)
+	}
+	var content []byte
+	for j, nw := 0, 1+r.Intn(2); j < nw; j++ {
+		p := piece(j, size())
+		sc.Ops = append(sc.Ops, opDesc{Op: "write", Data: p})
+		content = append(content, expand(p)...)
+	}
+	sc.Table = append(sc.Table, rle(content))
+	if r.Intn(6) == 0 {
+		other := append(append([]byte{}, content...), 'x')
+		sc.Table = append(sc.Table, rle(other))
+		sc.Ops = append(sc.Ops, opDesc{Op: "commit", Digest: sha(other)})
+	} else {
+		sc.Ops = append(sc.Ops, opDesc{Op: "commit", Digest: sha(content)})
 	}
 	return sc
 }
